@@ -394,13 +394,20 @@ pub fn gen_driver(prop: &str, rng: &mut Rng, sh: &mut Shards, out: &str, thoroug
                 base.items.push(Item::Ins(Ins::Ctl { op: "nop" }));
                 // the unmutated original must run (vacuity guard)
                 progs.push((base.clone(), Layout::plain()));
+                let radix_layouts: Vec<Layout> = [Radix::Dec, Radix::Hex, Radix::Bin].iter().enumerate().map(|(q, r)| {
+                    let mut l = Layout::plain();
+                    l.force = Some(Spelling { case: if q == 1 { Case::Upper } else { Case::Lower }, radix: *r, wide: q == 2, nl: false });
+                    l
+                }).collect();
                 for m in 0..crate::checks3::MUTATIONS {
                     if let Some(mut p) = mutate(&base, m, rng) {
                         p.note = format!("mutation-{}", m);
-                        progs.push((p, Layout::plain()));
+                        // constants are written in a different radix from program to program
+                        progs.push((p, radix_layouts[(i + m) % 3].clone()));
                     }
                 }
             }
+            let boundary_start = progs.len();
             // boundary values of every constant range: the inside must be accepted, one step outside refused
             for (w, vals) in [(8u8, vec![-129i32, -128, -1, 0, 255, 256]), (16u8, vec![-32769, -32768, -1, 0, 65535, 65536])] {
                 for v in vals {
@@ -440,6 +447,15 @@ pub fn gen_driver(prop: &str, rng: &mut Rng, sh: &mut Shards, out: &str, thoroug
             for n in [0u32, 2, 3, 4, 0x10, 0x11, 0x20, 0x21, 0x22, 255] {
                 progs.push((Program { data: vec![], items: vec![Item::Label("start".into()), Item::Ins(Ins::Mov { w: 16, dst: Opnd::Reg16("ax"), src: Opnd::Imm(0x0200) }), Item::Ins(Ins::Int { n })], interp: false, stdin: vec![], note: format!("boundary-int-{}", n) }, Layout::plain()));
             }
+            // the boundary programs once more with hexadecimal and binary constants
+            let extra: Vec<(Program, Layout)> = progs[boundary_start..].iter().flat_map(|(p, _)| {
+                [(Radix::Hex, Case::Upper), (Radix::Bin, Case::Lower)].iter().map(|(r, c)| {
+                    let mut l = Layout::plain();
+                    l.force = Some(Spelling { case: *c, radix: *r, wide: false, nl: false });
+                    (p.clone(), l)
+                }).collect::<Vec<_>>()
+            }).collect();
+            progs.extend(extra);
         }
         _ => panic!("harness: no driver workload for {}", prop),
     }
